@@ -115,6 +115,12 @@ def generate(repo, outdir):
     flows["send_async"] = statement_calls(fns["send_async"], STAGES["send"]) if "send_async" in fns else []
     st = status_constants(fns["process_reply"])
     other = sorted(k for k in st if k.startswith("other:"))
+    # the plain HTTP bindings: HttpBinding.process_reply in bindings/http.py
+    htree = ast.parse((repo / "src" / "zeep" / "wsdl" / "bindings" / "http.py").read_text())
+    hcls = next(n for n in htree.body if isinstance(n, ast.ClassDef) and n.name == "HttpBinding")
+    hfn = next(n for n in hcls.body if isinstance(n, ast.FunctionDef) and n.name == "process_reply")
+    hst = status_constants(hfn)
+    hother = sorted(k for k in hst if k.startswith("other:"))
 
     def lst(xs):
         return "[" + ", ".join(lean_str(x) for x in xs) + "]"
@@ -131,9 +137,12 @@ def generate(repo, outdir):
     body += "/-- `response.status_code != k` -/\ndef replyStatusNotEq : List Nat := %s\n" % nat(st["noteq"])
     body += "/-- `response.status_code == k` -/\ndef replyStatusEq : List Nat := %s\n" % nat(st["eq"])
     body += "/-- comparisons of the status with other operators (none expected) -/\ndef replyStatusOtherOps : List String := %s\n" % lst(other)
+    body += "\n/-- `HttpBinding.process_reply`: the integers the status is compared with, by operator -/\ndef httpReplyStatusNotEq : List Nat := %s\n" % nat(hst["noteq"])
+    body += "def httpReplyStatusIn : List Nat := %s\ndef httpReplyStatusEq : List Nat := %s\n" % (nat(hst["in"]), nat(hst["eq"]))
+    body += "def httpReplyStatusOtherOps : List String := %s\n" % lst(hother)
     body += "\nend Generated\n"
     outdir.mkdir(exist_ok=True)
     p = outdir / "SoapFlow.lean"
     if not p.exists() or p.read_text() != body:
         p.write_text(body)
-    return {"flows": flows, "status": st}
+    return {"flows": flows, "status": st, "http_status": hst}
